@@ -117,6 +117,12 @@ func ZZ_C06_numbers() {
 		text = "S1F1\n<L[" + d + "] <A[.." + d + "] v>>\n."
 	case 9:
 		text = "S1F1\n<B " + d + " 0b" + d + ">\n."
+	case 10: // stream code around 2^63 (k symbolic trailing digits)
+		text = "S" + "9223372036854775808"[:19-k] + d + "F1 W H->E\n."
+	case 11: // function code around 2^64
+		text = "S1F" + "18446744073709551615"[:20-k] + d + " H<-E\n<U1 1>\n."
+	case 12: // size bound and ellipsis index around 2^63
+		text = "S1F1\n<L[" + "9223372036854775807"[:19-k] + d + "] <U1 1> ...[" + "9223372036854775808"[:19-k] + d + "]>\n."
 	}
 	zzParseTotal(text)
 	rt.Reach("end")
